@@ -7,11 +7,15 @@
        capping end groups, all copies of its own tokens;
      - after an object with a non-empty right terminal exactly one descriptor is open (the one
        reserved for the hand-over), after an empty right terminal none.
-   FULL STATEMENT (not proved): termination and completion for every molecule accepted by the
-   closability analysis [well_posed] (DESIGN.md section 7/C06) -- C06_terminates, C06_complete.
+     - termination: for every element list, pick stream and target list the generator model never
+       runs out of fuel -- every iteration of the capping and growth loops consumes a random
+       decision (C06_terminates); the number of growth steps is bounded by the drawn target and
+       the lightest token whatever the random stream (C07_units_bounded).
+   FULL STATEMENT (not proved): completion (no open descriptor left, no error) for every molecule
+   accepted by the closability analysis [well_posed] (DESIGN.md section 7/C06) -- C06_complete.
    The implementation-level oracle checks completion on every generated case. *)
 From Coq Require Import List ZArith QArith Ascii String Bool.
-From GBS Require Import Model.PyStr Model.Num Model.Bond Model.Select Model.Gen Proofs.BondP Proofs.GenP Props.GenExample.
+From GBS Require Import Model.PyStr Model.Num Model.Bond Model.Select Model.Gen Proofs.BondP Proofs.GenP Proofs.GenFuel Props.GenExample.
 Import ListNotations.
 
 Theorem C06_all_used_partial : forall els pk tg g infos st,
@@ -36,6 +40,10 @@ Theorem C06_finalize_partial : forall s ei g st g' st',
   (if is_empty_terminal (s_right s) then m_open g' = [] else exists term, m_open g' = [term] /\ In term (m_open g)).
 Proof. intros s ei g st g' st' H E. exact (finalize_post s ei g H st g' st' E). Qed.
 Print Assumptions C06_finalize_partial.
+
+Theorem C06_terminates : forall els pk tg, run_gen els pk tg <> OutOfFuel.
+Proof. exact run_gen_never_out_of_fuel. Qed.
+Print Assumptions C06_terminates.
 
 Example C06_example :
   match run_gen ex1_els ex1_picks ex1_targets with
